@@ -699,6 +699,18 @@ func check(id, tier string) int {
 				ok = true
 			}
 		}
+		for attempt := 1; !ok && det.ok && attempt < 8; attempt++ {
+			// the determinism self-test passed on its sample, yet this run
+			// does not replay: the code under test may be nondeterministic on
+			// inputs the sample did not hold (goroutines of its own inside one
+			// call, a select over ready channels).  Every execution is a real
+			// one judged by the same oracle: the tape is tried a few more
+			// times, without minimisation, before the outcome is "no verdict".
+			path, ok = minimiseAndConfirm(bin, dir, agg.violation, knownPath, true, workerEnv)
+			if ok {
+				fmt.Fprintf(os.Stderr, "verif: the violation replays from its tape in some fresh processes only (confirmed at attempt %d): the code under test is not deterministic on this input\n", attempt+1)
+			}
+		}
 		if !ok {
 			os.RemoveAll(dir)
 			fmt.Fprintf(os.Stderr, "verif: violation %s in run %d did not reproduce from its tape in a fresh process: harness determinism bug, no verdict\n", agg.violation.Signature, agg.violation.Run)
